@@ -12,13 +12,13 @@
      u2 a 2-byte character (U+00E9)   u3 a 3-byte character (U+20AC)   bom U+FEFF (3 bytes)
 
    Token symbols "t:<word>" stand for <word> followed by one space (grammar-level alphabets for
-   the parser: keywords, punctuation, a name, a number, a string; t:STR is "s" and t:PROTO3 is "proto3" with their quotes); TokLen gives their byte length.
-   Prefix (selected by PrefixName) is a fixed symbol sequence every text starts with (e.g. "message M {"); MaxLen and
+   the parser: keywords, punctuation, a name, a number, a string; t:STR is "s", t:PROTO2/3 "proto2"/"proto3", t:E2023 "2023" with their quotes); TokLen gives their byte length.
+   Every text starts with a header (Headers) and a context (PrefixName), e.g. syntax = "proto2" ; message M { ; MaxLen and
    ExportMin count the symbols after it.                                                       *)
 EXTENDS Naturals, Sequences, FiniteSets, TLC, Json
-CONSTANTS Alphabet, MaxLen, ExportMin, PrefixName
-VARIABLE text
-vars == <<text>>
+CONSTANTS Alphabet, MaxLen, ExportMin, PrefixName, Headers
+VARIABLES text, plen
+vars == <<text, plen>>
 
 TokLen == "t:syntax" :> 7 @@
           "t:edition" :> 8 @@
@@ -63,13 +63,30 @@ TokLen == "t:syntax" :> 7 @@
           "t:," :> 2 @@
           "t:." :> 2 @@
           "t:-" :> 2 @@
-          "t::" :> 2
+          "t::" :> 2 @@
+          "t:G" :> 2 @@
+          "t:a.b" :> 4 @@
+          "t:(x)" :> 4 @@
+          "t:PROTO2" :> 9 @@
+          "t:E2023" :> 7
 
-Prefix == CASE PrefixName = "msg"  -> <<"t:message", "t:M", "t:{">>
-            [] PrefixName = "enum" -> <<"t:enum", "t:M", "t:{">>
-            [] PrefixName = "svc"  -> <<"t:service", "t:M", "t:{">>
-            [] PrefixName = "opt"  -> <<"t:option", "t:a", "t:=">>
-            [] OTHER               -> << >>
+(* PrefixName is a set of context names; Headers a set of header names; every text starts with
+   Header(h) \o Context(c) for some h, c of them (several initial states). *)
+Context(c) == CASE c = "msg"   -> <<"t:message", "t:M", "t:{">>
+                [] c = "ext"   -> <<"t:extend", "t:M", "t:{">>
+                [] c = "oneof" -> <<"t:message", "t:M", "t:{", "t:oneof", "t:a", "t:{">>
+                [] c = "msg.group"    -> <<"t:message", "t:M", "t:{", "t:group">>
+                [] c = "msg.optgroup" -> <<"t:message", "t:M", "t:{", "t:optional", "t:group">>
+                [] c = "ext.group"    -> <<"t:extend", "t:M", "t:{", "t:group">>
+                [] c = "oneof.group"  -> <<"t:message", "t:M", "t:{", "t:oneof", "t:a", "t:{", "t:group">>
+                [] c = "enum"  -> <<"t:enum", "t:M", "t:{">>
+                [] c = "svc"   -> <<"t:service", "t:M", "t:{">>
+                [] c = "opt"   -> <<"t:option", "t:a", "t:=">>
+                [] OTHER       -> << >>
+Header(h) == CASE h = "p2"  -> <<"t:syntax", "t:=", "t:PROTO2", "t:;">>
+               [] h = "p3"  -> <<"t:syntax", "t:=", "t:PROTO3", "t:;">>
+               [] h = "e23" -> <<"t:edition", "t:=", "t:E2023", "t:;">>
+               [] OTHER     -> << >>
 
 ByteLen(c) == IF c \in DOMAIN TokLen THEN TokLen[c]
               ELSE CASE c = "u2" -> 2 [] c = "u3" -> 3 [] c = "bom" -> 3 [] OTHER -> 1
@@ -81,12 +98,15 @@ ValidUTF8(t) == \A k \in DOMAIN t : t[k] # "inv"
 NulPrefix(t) == \/ (Len(t) >= 1 /\ t[1] = "nul")
                 \/ (Len(t) >= 2 /\ ByteLen(t[1]) = 1 /\ t[2] = "nul")
 
-Init == text = Prefix
-Next == /\ Len(text) < Len(Prefix) + MaxLen
+Init == \E h \in Headers, c \in PrefixName :
+          /\ text = Header(h) \o Context(c)
+          /\ plen = Len(text)
+Next == /\ Len(text) < plen + MaxLen
         /\ \E c \in Alphabet : text' = Append(text, c)
+        /\ UNCHANGED plen
 Spec == Init /\ [][Next]_vars
 
 Case == [kind |-> "exh", syms |-> text, len |-> Bytes(text, Len(text)),
          utf8 |-> ValidUTF8(text), nulp |-> NulPrefix(text)]
-Export == Len(text) >= Len(Prefix) + ExportMin => PrintT("CASE " \o ToJson(Case))
+Export == Len(text) >= plen + ExportMin => PrintT("CASE " \o ToJson(Case))
 =============================================================================
